@@ -23,6 +23,7 @@ pub const N_SLOTS: usize = 30;
 pub const TABLE_LAYERS: u8 = 0;
 pub const TABLE_CSTS: u8 = 1;
 pub const TABLE_ONCE: u8 = 254;
+pub const TABLE_ATOMIC: u8 = 253;
 
 pub type Clock = [u32; MAX_TASKS];
 
@@ -34,6 +35,8 @@ pub enum Kind {
     OnceEnter = 2,
     OncePost = 3,
     Construct = 4,
+    /// an operation on one of the crate's (facade) atomics
+    Atomic = 5,
 }
 
 impl Kind {
@@ -44,6 +47,7 @@ impl Kind {
             Kind::OnceEnter => "once-enter",
             Kind::OncePost => "once-post",
             Kind::Construct => "construct",
+            Kind::Atomic => "atomic-op",
         }
     }
 }
@@ -95,6 +99,9 @@ struct Sim {
     clocks: [Clock; MAX_TASKS],
     once_clocks: Vec<(usize, Clock)>,
     once_keys: Vec<usize>,
+    atomic_keys: Vec<usize>,
+    exec_epoch: u64,
+    fence_clock: Clock,
     last_write: [[Option<(u8, u32)>; N_SLOTS]; 2],
     last_reads: [[[u32; MAX_TASKS]; N_SLOTS]; 2],
     constructed: [[u32; N_SLOTS]; 2],
@@ -112,6 +119,9 @@ impl Sim {
             clocks: [[0; MAX_TASKS]; MAX_TASKS],
             once_clocks: Vec::new(),
             once_keys: Vec::new(),
+            atomic_keys: Vec::new(),
+            exec_epoch: 0,
+            fence_clock: [0; MAX_TASKS],
             last_write: [[None; N_SLOTS]; 2],
             last_reads: [[[0; MAX_TASKS]; N_SLOTS]; 2],
             constructed: [[0; N_SLOTS]; 2],
@@ -130,6 +140,10 @@ impl Sim {
         }
         self.once_clocks.clear();
         self.once_keys.clear();
+        self.atomic_keys.clear();
+        // a new execution: every facade atomic lazily returns to its initial value (see `atomics`)
+        self.exec_epoch += 1;
+        self.fence_clock = [0; MAX_TASKS];
         self.last_write = [[None; N_SLOTS]; 2];
         self.last_reads = [[[0; MAX_TASKS]; N_SLOTS]; 2];
         self.constructed = [[0; N_SLOTS]; 2];
@@ -217,6 +231,87 @@ fn on_access(table: u8, slot: usize, kind: Kind) -> Option<usize> {
         }
     });
     Some(idx)
+}
+
+/// What `atomics.rs` needs from the monitor.
+pub(crate) mod sim_atomics_support_impl {
+    use super::*;
+
+    /// Scheduling point + seam event of one atomic operation (no-op when the monitor is off).
+    pub fn atomic_seam(key: usize) {
+        let idx = SIM.with(|s| {
+            let mut s = s.borrow_mut();
+            match s.atomic_keys.iter().position(|k| *k == key) {
+                Some(i) => i.min(252) as u8,
+                None => {
+                    s.atomic_keys.push(key);
+                    (s.atomic_keys.len() - 1).min(252) as u8
+                }
+            }
+        });
+        seam(TABLE_ATOMIC, idx, Kind::Atomic);
+    }
+
+    pub fn exec_epoch() -> u64 {
+        SIM.with(|s| s.borrow().exec_epoch)
+    }
+
+    pub fn acquire(c: &Clock) {
+        SIM.with(|s| {
+            let mut s = s.borrow_mut();
+            if !s.active {
+                return;
+            }
+            let t = me();
+            for i in 0..MAX_TASKS {
+                if c[i] > s.clocks[t][i] {
+                    s.clocks[t][i] = c[i];
+                }
+            }
+        });
+    }
+
+    /// Snapshot of the caller's clock (what a release publishes), then advance the caller.
+    pub fn release() -> Clock {
+        SIM.with(|s| {
+            let mut s = s.borrow_mut();
+            if !s.active {
+                return [0; MAX_TASKS];
+            }
+            let t = me();
+            let c = s.clocks[t];
+            s.clocks[t][t] += 1;
+            c
+        })
+    }
+
+    pub fn fence(acq: bool, rel: bool) {
+        seam(TABLE_ATOMIC, 252, Kind::Atomic);
+        SIM.with(|s| {
+            let mut s = s.borrow_mut();
+            if !s.active {
+                return;
+            }
+            let t = me();
+            if acq {
+                let f = s.fence_clock;
+                for i in 0..MAX_TASKS {
+                    if f[i] > s.clocks[t][i] {
+                        s.clocks[t][i] = f[i];
+                    }
+                }
+            }
+            if rel {
+                let c = s.clocks[t];
+                for i in 0..MAX_TASKS {
+                    if c[i] > s.fence_clock[i] {
+                        s.fence_clock[i] = c[i];
+                    }
+                }
+                s.clocks[t][t] += 1;
+            }
+        });
+    }
 }
 
 // ------------------------------------------------------------------------------------------
